@@ -23,6 +23,7 @@ inductive Err where
   | attributeError   -- AttributeError escaping from `_parse_schema`
   | keyError
   | valueError
+  | indexError       -- IndexError escaping from `_parse_schema` (`flags.pop(0)` on an empty list)
   | unmodelled
 deriving Repr, DecidableEq
 
@@ -90,6 +91,23 @@ def run (now : Nat) (r : Rel) : List WReq → Rel
   | [] => r
   | q :: qs => run (now + 1) (step now r q) qs
 
+/-! ### what is on disk: text, not lines
+
+`write` copies `join(record) + '\n'` for every record; both `open(newline='\n')` and
+`gzip.open(mode='rt', newline='\n')` split that text at `\n` ONLY — a `\r`, `\r\n`, NUL, VT, FF,
+NEL … inside a value stays inside its line, in the plain and in the compressed form alike. -/
+
+/-- the characters of a file holding these lines -/
+def toText (ls : List Line) : List Char := ls.flatMap (· ++ ['\n'])
+
+/-- iteration over a text file opened with `newline='\n'`: lines end at `\n` only; a final
+unterminated fragment is a line of its own -/
+def splitLinesAux : List Char → List Char → List Line
+  | cur, [] => if cur.isEmpty then [] else [cur.reverse]
+  | cur, c :: cs => if c = '\n' then cur.reverse :: splitLinesAux [] cs else splitLinesAux (c :: cur) cs
+
+def splitLines (t : List Char) : List Line := splitLinesAux [] t
+
 /-! ### fields, encoding of records -/
 
 structure Field where
@@ -132,7 +150,7 @@ def decodeRaw (l : Line) : Except Err RawRec :=
 def readRaw (r : Rel) : Except Err (List RawRec) :=
   match r.read with
   | none => .error .tsdbError
-  | some ls => ls.mapM decodeRaw
+  | some ls => (splitLines (toText ls)).mapM decodeRaw
 
 def castRow (fields : List Field) (raw : RawRec) : Except Err (List Val) :=
   if fields.isEmpty then .error .unmodelled
@@ -146,7 +164,7 @@ def castRow (fields : List Field) (raw : RawRec) : Except Err (List Val) :=
 def readCast (fields : List Field) (r : Rel) : Except Err (List (List Val)) :=
   match r.read with
   | none => .error .tsdbError
-  | some ls => ls.mapM (fun l => do castRow fields (← decodeRaw l))
+  | some ls => (splitLines (toText ls)).mapM (fun l => do castRow fields (← decodeRaw l))
 
 def toVal : Option (List Char) → Val
   | none => .none
@@ -198,7 +216,7 @@ def sourceRecords (q : DbReq) (newF : List Field) (from_ : Files) (name : Name) 
     match (from_ name).read with
     | none => .ok []            -- TSDBError of `db[name]` is swallowed
     | some ls => do
-      let recs ← ls.mapM decodeRaw
+      let recs ← (splitLines (toText ls)).mapM decodeRaw
       pure (if q.schema.isSome then recs.map (remake oldF newF) else recs)
 
 /-- body of the `for name in names` loop -/
@@ -232,34 +250,164 @@ def writeDb (now : Nat) (q : DbReq) (src dst : Files) : Files × Option Err :=
   | (d, some e) => (d, some e)
   | (d, none) => (cleanup d ((q.target.map (·.1)).filter (fun n => !(q.nameList.contains n))), none)
 
-/-! ### is the schema file that `write_schema` wrote readable by `read_schema`?
+/-! ### the `relations` file at line level: `Field.__str__`, `_format_schema`, `_parse_schema`
 
-Modelled on the region the generators stay in: relation names over `[A-Za-z0-9_-]`, non-empty;
-field lines `  name :datatype flags…` (never matched by the table pattern).  A table line is
-`name:`; `_parse_schema` recognises it with `^\w.*:$`, i.e. only if the name starts with a word
-character (before the repair 464c039 the pattern was `\w.+` and one-character names failed).  An unrecognised `name:` line is then taken for a
-field line without datatype: `TSDBSchemaError` before the first table, `AttributeError`
-(`None.split`) after it. -/
+The text of the file is modelled as its list of lines (`str.splitlines` of what `write_schema`
+wrote; trusted: no line of a formatted schema contains a line-break character, which holds when
+names, flags and comments do not).  `\w`, `\s`, `str.strip`, `str.split` are modelled on ASCII
+plus the few Latin-1 spaces; the generators stay in printable ASCII + TAB. -/
 
-def nameInRegion (n : Name) : Bool :=
-  !n.isEmpty && n.all (fun c => C08.isAsciiWord c || c = '-')
+structure SField where
+  name : List Char
+  datatype : List Char
+  flags : List (List Char)
+  comment : Option (List Char)
+deriving Repr, DecidableEq
 
-def tableLineOk (n : Name) : Bool :=
-  match n with
-  | c :: _ => C08.isAsciiWord c
-  | [] => false
+abbrev SSchema := List (Name × List SField)
 
-def parseOutcomeAux : Bool → List Name → Except Err Unit
-  | _, [] => .ok ()
-  | first, n :: ns =>
-    if !nameInRegion n then .error .unmodelled
-    else if tableLineOk n then parseOutcomeAux false ns
-    else if first then .error .schemaError else .error .attributeError
+/-- `str.isspace` / regex `\s` (ASCII, FS..US, NEL, NBSP) -/
+def isSpace (c : Char) : Bool :=
+  c = ' ' || c = '\t' || c = '\n' || c = '\r' || c.toNat = 11 || c.toNat = 12
+  || (28 ≤ c.toNat && c.toNat ≤ 31) || c.toNat = 0x85 || c.toNat = 0xa0
 
-/-- `read_schema` of what `write_schema s` wrote -/
-def readSchemaBack (s : Schema) : Except Err Schema :=
-  match parseOutcomeAux true (s.map (·.1)) with
-  | .ok () => .ok s
+/-- `str.ljust(n)` -/
+def ljust (n : Nat) (s : List Char) : List Char := s ++ List.replicate (n - s.length) ' '
+
+/-- `Field.__str__` -/
+def fmtSField (f : SField) : Line :=
+  let s := ' ' :: ' ' :: joinWith ' ' (f.name :: f.datatype :: f.flags)
+  match f.comment with
+  | none => s
+  | some c => if c.isEmpty then s else ljust 40 s ++ '#' :: ' ' :: c
+
+/-- `'\n'.join(xs)` seen as lines: the empty join is one empty line -/
+def joinLines (xs : List Line) : List Line := if xs.isEmpty then [[]] else xs
+
+def fmtTable (t : Name × List SField) : List Line :=
+  (t.1 ++ [':']) :: joinLines (t.2.map fmtSField)
+
+/-- `_format_schema(schema) + '\n'`, as `splitlines()` sees it: tables separated by one blank line -/
+def formatSchema : SSchema → List Line
+  | [] => [[]]
+  | [t] => fmtTable t
+  | t :: ts => fmtTable t ++ [] :: formatSchema ts
+
+/-- `str.strip()` -/
+def strip (l : List Char) : List Char := ((l.dropWhile isSpace).reverse.dropWhile isSpace).reverse
+
+/-- `str.split()`: `cur` is the token being read, reversed -/
+def splitWsAux : List Char → List Char → List (List Char)
+  | cur, [] => if cur.isEmpty then [] else [cur.reverse]
+  | cur, c :: cs =>
+    if isSpace c then (if cur.isEmpty then splitWsAux [] cs else cur.reverse :: splitWsAux [] cs)
+    else splitWsAux (c :: cur) cs
+
+def splitWs (s : List Char) : List (List Char) := splitWsAux [] s
+
+/-- `re.match(r'^(?P<table>\w.*):$', line)` on a stripped line: first character a word character,
+last character the colon, at least two characters -/
+def tableMatch (L : List Char) : Option Name :=
+  match L with
+  | c :: tl =>
+    if C08.isAsciiWord c && !tl.isEmpty && tl.getLast? == some ':' then some (c :: tl.dropLast) else none
+  | [] => none
+
+/-- the field pattern `\s*(?P<name>\S+)(\s+(?P<flags>[^#]+))?(\s*#\s*(?P<comment>.*)$)?` on a
+stripped non-empty line, followed by `flags.split()` / `flags.pop(0)`:
+* name = the maximal run of non-space characters;
+* flags group: all following white space, then the maximal `#`-free run — if that run would be
+  empty (end of line or `#` right after the white space) the engine backtracks and gives the LAST
+  white-space character to the flags group, which needs two of them; otherwise the group does not
+  participate (`None.split()` → AttributeError);
+* comment group: optional white space, `#`, white space, rest of the line. -/
+def parseFieldLine (L : List Char) : Except Err SField :=
+  let name := L.takeWhile (fun c => !isSpace c)
+  let rest := L.dropWhile (fun c => !isSpace c)
+  let W := rest.takeWhile isSpace
+  let X := rest.dropWhile isSpace
+  let flagsTxt : Option (List Char × List Char) :=
+    match X with
+    | c :: _ =>
+      if c ≠ '#' then some (X.takeWhile (· ≠ '#'), X.dropWhile (· ≠ '#'))
+      else match W.reverse with
+        | w :: _ :: _ => some ([w], X)
+        | _ => none
+    | [] => match W.reverse with
+        | w :: _ :: _ => some ([w], X)
+        | _ => none
+  match flagsTxt with
+  | none => .error .attributeError
+  | some (ft, R) =>
+    let comment := match R.dropWhile isSpace with
+      | '#' :: r => some (r.dropWhile isSpace)
+      | _ => none
+    match splitWs ft with
+    | [] => .error .indexError
+    | dt :: fl => .ok { name := name, datatype := dt, flags := fl, comment := comment }
+
+/-- parser state: the finished tables in order and the table being filled -/
+structure PState where
+  done : List (Name × List SField) := []
+  cur : Option (Name × List SField) := none
+deriving Repr
+
+def PState.tables (st : PState) : SSchema := st.done ++ st.cur.toList
+
+/-- one turn of the `while lines:` loop of `_parse_schema` -/
+def parseLine (st : PState) (line : Line) : Except Err PState :=
+  let L := strip line
+  match tableMatch L with
+  | some t =>
+    if (st.tables.map (·.1)).contains t then .error .schemaError      -- table redefined
+    else .ok { done := st.tables, cur := some (t, []) }
+  | none =>
+    if L.isEmpty then .ok st
+    else match st.cur with
+      | none => .error .schemaError                                 -- invalid line in schema file
+      | some (t, fs) =>
+        match parseFieldLine L with
+        | .ok f => .ok { st with cur := some (t, fs ++ [f]) }
+        | .error e => .error e
+
+def parseLines : PState → List Line → Except Err PState
+  | st, [] => .ok st
+  | st, l :: ls =>
+    match parseLine st l with
+    | .ok st' => parseLines st' ls
+    | .error e => .error e
+
+/-- `_parse_schema` -/
+def parseSchema (lines : List Line) : Except Err SSchema :=
+  match parseLines {} lines with
+  | .ok st => .ok st.tables
   | .error e => .error e
+
+/-- what `write_database` / `initialize_database` leave in the `relations` file of the
+destination (written before anything else, whatever happens afterwards) -/
+def writeSchemaFile (target : SSchema) : List Line := formatSchema target
+
+/-- `tsdb.Database(path)` / `read_schema(path)` on that directory -/
+def openSchema (relationsFile : List Line) : Except Err SSchema := parseSchema relationsFile
+
+def dtypeText : DType → List Char
+  | .integer => ":integer".toList
+  | .string => ":string".toList
+  | .date => ":date".toList
+
+def SField.ofField (f : Field) : SField := { name := f.name, datatype := dtypeText f.dt, flags := [], comment := none }
+
+def dtypeOfText (s : List Char) : Option DType :=
+  if s = ":integer".toList then some .integer
+  else if s = ":string".toList then some .string
+  else if s = ":date".toList then some .date
+  else none
+
+/-- the data-level view (name, datatype) of a schema read from the file; `none` for a datatype the
+data model does not cover -/
+def SSchema.toSchema (ss : SSchema) : Option Schema :=
+  ss.mapM (fun t => do
+    let fs ← t.2.mapM (fun f => do pure ({ name := f.name, dt := ← dtypeOfText f.datatype } : Field))
+    pure (t.1, fs))
 
 end Verif.C09
